@@ -47,6 +47,12 @@ def optLimbsTok : Option (List Nat) → String
   | none => "panic"
   | some v => limbsHex v
 
+/-- boxed result with its precision: L1 `<nlimbs>:<hex>`; L0 = the demanded value at that precision -/
+def precBoth (r : Option (List Nat)) (spec : Nat) : String :=
+  match r with
+  | none => both "panic" (natToHex spec)
+  | some v => both (limbsHexLen v) s!"{v.length}:{natToHex spec}"
+
 def boxedInvOddVal (l : Nat) (a m : Nat) : Option Nat :=
   match boxedInv false (toLimbs l a) (toLimbs l m) [1] with
   | some r => r
@@ -244,15 +250,13 @@ def dispatchC10 : Dispatch := fun op args =>
   | "c10.b.gcd_mixed", [la, a, lb, b, vt] =>
     match la.toNat?, hexToNat? a, lb.toNat?, hexToNat? b, flag? vt with
     | some la, some a, some lb, some b, some vt =>
-      let r := fun dbg => optLimbsTok (if vt then boxedGcdVartimeD dbg (toLimbs la a) (toLimbs lb b)
-                                       else boxedGcdD dbg (toLimbs la a) (toLimbs lb b))
-      some (both (prof (r false) (r true)) (natToHex (specGcd a b)))
+      let r := if vt then boxedGcdVartime (toLimbs la a) (toLimbs lb b) else boxedGcd (toLimbs la a) (toLimbs lb b)
+      some (precBoth r (specGcd a b))
     | _, _, _, _, _ => badArgs
   | "c10.b.odd_gcd_mixed", [la, a, lb, b, vt] =>
     match la.toNat?, hexToNat? a, lb.toNat?, hexToNat? b, flag? vt with
     | some la, some a, some lb, some b, some vt =>
-      let r := fun dbg => optLimbsTok (boxedOddGcdD dbg vt (toLimbs la a) (toLimbs lb b))
-      some (both (prof (r false) (r true)) (natToHex (specGcd a b)))
+      some (precBoth (boxedOddGcd vt (toLimbs la a) (toLimbs lb b)) (specGcd a b))
     | _, _, _, _, _ => badArgs
   -- ---------------------------------------------------------------- model-only reports (not generated)
   | "c10.slack.inv", [n, a, m] =>
